@@ -418,6 +418,30 @@ class Interp:
         self.obs.data.setdefault("extra_fds", []).extend(made)
         return {"fds": made}
 
+    def op_setenv(self, th, o):
+        env = rt.RT.kernel.procs[100].overlay["os"].environ
+        if o.get("value") is None:
+            env.pop(o["key"], None)
+        else:
+            env[o["key"]] = o["value"]
+        return {}
+
+    def op_child_exit(self, th, o):
+        """plain LokyProcess child ending with a given code / signal."""
+        from loky.backend import get_context
+        ctx = get_context(o.get("context", "loky"))
+        p = ctx.Process(target=tasks.exit_with, args=(o["mode"], o.get("code", 0)))
+        p.start()
+        k = rt.RT.kernel
+        from multiprocessing.connection import wait as mpwait
+        ready_before = bool(mpwait([p.sentinel], 0)) if o.get("probe_before") else None
+        alive_truth_before = k.procs[p.pid].alive
+        p.join()
+        ready_after = bool(mpwait([p.sentinel], 0))
+        st = k.procs[p.pid].status
+        return dict(pid=p.pid, exitcode=p.exitcode, truth=list(st) if st else None, ready_before=ready_before,
+                    alive_truth_before=alive_truth_before, ready_after=ready_after, is_alive=p.is_alive())
+
     def op_sync_make(self, th, o):
         from loky.backend import get_context
         ctx = get_context("loky")
@@ -446,7 +470,7 @@ class Interp:
         for i, o in enumerate(ops):
             name = o["op"]
             ev = self.obs.event(thread=th, i=i, op=name, phase="call", o=o)
-            cur.api = (name, o.get("ex"), o.get("f"))
+            cur.api = (name, o.get("ex"), o.get("f"), o.get("context"))
             try:
                 r = getattr(self, "op_" + name)(th, o)
             except sk.SimKilled:
